@@ -1,0 +1,224 @@
+//! Verification hook (compiled only with `--cfg cormacrelf_incremental_rs_verif`).
+//!
+//! A registry of weak references to every node created in a state, and
+//! `IncrState::verif_audit`, a port of the `Node.invariant` / `State.invariant` walkers of
+//! the OCaml implementation. Nothing here changes engine behaviour; it only reads.
+use std::collections::HashMap;
+use std::panic::{catch_unwind, AssertUnwindSafe};
+
+use crate::internal_observer::ObserverState;
+use crate::node::{ErasedNode, NodeId};
+use crate::scope::Scope;
+use crate::state::IncrStatus;
+use crate::{Invariant, NodeRef};
+
+pub(crate) fn register(node: &NodeRef) {
+    if let Some(state) = node.state_opt() {
+        state.verif_nodes.borrow_mut().push(std::rc::Rc::downgrade(node));
+    }
+}
+
+fn child_at(parent: &NodeRef, index: i32) -> Option<NodeRef> {
+    let mut found = None;
+    parent.foreach_child(&mut |ix, child| {
+        if ix == index {
+            found = Some(child);
+        }
+    });
+    found
+}
+
+impl crate::IncrState {
+    /// Number of nodes created in this state that are still alive.
+    pub fn verif_live_nodes(&self) -> usize {
+        let reg = self.inner.verif_nodes.borrow();
+        reg.iter().filter(|w| w.strong_count() > 0).count()
+    }
+
+    /// Audit the engine's bookkeeping. Must be called outside `stabilise`.
+    /// `after_stabilise`: additionally require an empty recompute heap and a value in every
+    /// necessary valid node. Returns one line per broken invariant (empty = consistent).
+    pub fn verif_audit(&self, after_stabilise: bool) -> Vec<String> {
+        let t = &*self.inner;
+        let mut out: Vec<String> = vec![];
+        if t.status.get() != IncrStatus::NotStabilising {
+            out.push(format!("audit called while status = {:?}", t.status.get()));
+            return out;
+        }
+        // drop dead registry entries (bookkeeping of the hook itself)
+        t.verif_nodes.borrow_mut().retain(|w| w.strong_count() > 0);
+        let nodes: Vec<NodeRef> = t.verif_nodes.borrow().iter().filter_map(|w| w.upgrade()).collect();
+        let max_allowed = t.recompute_heap.max_height_allowed();
+
+        // recompute heap contents
+        let heap = t.recompute_heap.verif_entries();
+        let mut in_heap: HashMap<NodeId, usize> = HashMap::new();
+        for (bucket, n) in heap.iter() {
+            *in_heap.entry(n.id()).or_insert(0) += 1;
+            if n.height_in_recompute_heap().get() != *bucket as i32 {
+                out.push(format!("heap: node {:?} sits in bucket {} but height_in_recompute_heap = {}", n.id(), bucket, n.height_in_recompute_heap().get()));
+            }
+            if n.height() != *bucket as i32 {
+                out.push(format!("heap: node {:?} sits in bucket {} but has height {}", n.id(), bucket, n.height()));
+            }
+            if !n.needs_to_be_computed() {
+                out.push(format!("heap: node {:?} is scheduled but is not necessary-and-stale", n.id()));
+            }
+        }
+        if heap.len() != t.recompute_heap.len() {
+            out.push(format!("heap: length counter {} but {} entries", t.recompute_heap.len(), heap.len()));
+        }
+        if after_stabilise && !heap.is_empty() {
+            out.push(format!("heap: {} entries left after stabilise", heap.len()));
+        }
+        // adjust-heights heap: the crate's own (otherwise unused) invariant
+        {
+            let ahh = t.adjust_heights_heap.borrow();
+            if catch_unwind(AssertUnwindSafe(|| ahh.invariant())).is_err() {
+                out.push("adjust-heights heap: Invariant::invariant() failed".to_string());
+            }
+            if !ahh.is_empty() {
+                out.push("adjust-heights heap: not empty at a quiescent point".to_string());
+            }
+            if ahh.max_height_allowed() != max_allowed {
+                out.push(format!("height limit differs between heaps: adjust-heights {} vs recompute {}", ahh.max_height_allowed(), max_allowed));
+            }
+        }
+        if !t.propagate_invalidity.borrow().is_empty() {
+            out.push("propagate_invalidity stack not empty at a quiescent point".to_string());
+        }
+        if !t.run_on_update_handlers.borrow().is_empty() {
+            out.push("run_on_update_handlers queue not empty at a quiescent point".to_string());
+        }
+
+        let mut necessary = 0usize;
+        for n in nodes.iter() {
+            let id = n.id();
+            let nec = n.is_necessary();
+            let scheduled = in_heap.get(&id).copied().unwrap_or(0);
+            if scheduled > 1 {
+                out.push(format!("node {id:?}: scheduled {scheduled} times"));
+            }
+            if (n.height_in_recompute_heap().get() >= 0) != (scheduled > 0) {
+                out.push(format!("node {id:?}: height_in_recompute_heap = {} but scheduled {} times", n.height_in_recompute_heap().get(), scheduled));
+            }
+            if n.needs_to_be_computed() != (scheduled > 0) {
+                out.push(format!("node {id:?}: necessary-and-stale = {} but scheduled = {}", n.needs_to_be_computed(), scheduled > 0));
+            }
+            if n.height_in_adjust_heights_heap().get() != -1 {
+                out.push(format!("node {id:?}: height_in_adjust_heights_heap = {} at a quiescent point", n.height_in_adjust_heights_heap().get()));
+            }
+            // handler counter
+            {
+                let e = n.erased();
+                let mut registered = e.on_update_handlers.borrow().len() as i32;
+                for (_oid, o) in e.observers.borrow().iter() {
+                    match o.upgrade() {
+                        Some(o) => registered += o.num_handlers(),
+                        None => out.push(format!("node {id:?}: dangling observer in its observer table")),
+                    }
+                }
+                if e.num_on_update_handlers.get() != registered {
+                    out.push(format!("node {id:?}: num_on_update_handlers = {} but {} handlers are registered", e.num_on_update_handlers.get(), registered));
+                }
+            }
+            let e = n.erased();
+            let parents = e.parents.borrow();
+            let pci = e.parent_child_indices.borrow();
+            if !nec {
+                if n.height() != -1 {
+                    out.push(format!("node {id:?}: unnecessary but height = {}", n.height()));
+                }
+                if scheduled > 0 {
+                    out.push(format!("node {id:?}: unnecessary but scheduled"));
+                }
+                continue;
+            }
+            necessary += 1;
+            let h = n.height();
+            if h < 0 || h > max_allowed {
+                out.push(format!("node {id:?}: necessary with height {h} outside 0..={max_allowed}"));
+            }
+            if n.is_valid() {
+                if let Scope::Bind(w) = &e.created_in {
+                    if w.upgrade().is_some() {
+                        if let Ok(sh) = catch_unwind(AssertUnwindSafe(|| e.created_in.height())) {
+                            if h <= sh {
+                                out.push(format!("node {id:?}: height {h} not above its creating bind ({sh})"));
+                            }
+                        }
+                    }
+                }
+                if after_stabilise && n.value_as_any().is_none() {
+                    out.push(format!("node {id:?}: necessary and valid but has no value after stabilise"));
+                }
+            }
+            // edges to children: recorded symmetrically with matching indices
+            let mut child_edges = vec![];
+            n.foreach_child(&mut |ix, child| child_edges.push((ix, child)));
+            for (ix, child) in child_edges {
+                if child.height() >= h {
+                    out.push(format!("node {id:?}: height {h} not above child {:?} at {}", child.id(), child.height()));
+                }
+                let pi = pci.my_parent_index_in_child_at_index.get(ix as usize).copied().unwrap_or(-2);
+                if pi < 0 {
+                    out.push(format!("node {id:?}: child #{ix} ({:?}) has no recorded parent index ({pi})", child.id()));
+                    continue;
+                }
+                let ce = child.erased();
+                let cps = ce.parents.borrow();
+                match cps.get(pi as usize).and_then(|w| w.upgrade()) {
+                    Some(p) if crate::rc_thin_ptr_eq(&p, n) => {}
+                    _ => out.push(format!("node {id:?}: child #{ix} ({:?}) does not list it as parent #{pi}", child.id())),
+                }
+                let back = ce.parent_child_indices.borrow().my_child_index_in_parent_at_index.get(pi as usize).copied().unwrap_or(-2);
+                if back != ix {
+                    out.push(format!("node {id:?}: child #{ix} ({:?}) records child index {back} for parent #{pi}", child.id()));
+                }
+            }
+            // edges to parents
+            for (pi, pw) in parents.iter().enumerate() {
+                let Some(p) = pw.upgrade() else {
+                    out.push(format!("node {id:?}: parent #{pi} is a dangling weak reference"));
+                    continue;
+                };
+                if !p.is_necessary() {
+                    out.push(format!("node {id:?}: parent #{pi} ({:?}) is not necessary", p.id()));
+                }
+                let ci = pci.my_child_index_in_parent_at_index.get(pi).copied().unwrap_or(-2);
+                match child_at(&p, ci) {
+                    Some(c) if crate::rc_thin_ptr_eq(&c, n) => {}
+                    _ => out.push(format!("node {id:?}: parent #{pi} ({:?}) does not have it as child #{ci}", p.id())),
+                }
+            }
+        }
+        let stats = self.stats();
+        if stats.necessary != necessary {
+            out.push(format!("stats().necessary = {} but {} nodes are necessary", stats.necessary, necessary));
+        }
+        // observers
+        let mut active = 0usize;
+        for (oid, o) in t.all_observers.borrow().iter() {
+            match o.state().get() {
+                ObserverState::InUse => active += 1,
+                ObserverState::Disallowed => {}
+                s => out.push(format!("observer {oid:?} in all_observers with state {s:?}")),
+            }
+            let node = o.observing_erased();
+            if !node.observers.borrow().contains_key(oid) {
+                out.push(format!("observer {oid:?} is in use but missing from its node's observer table"));
+            }
+        }
+        for w in t.new_observers.borrow().iter() {
+            if let Some(o) = w.upgrade() {
+                if o.state().get() == ObserverState::Created {
+                    active += 1;
+                }
+            }
+        }
+        if t.num_active_observers.get() != active {
+            out.push(format!("num_active_observers = {} but {} observers are created-or-in-use", t.num_active_observers.get(), active));
+        }
+        out
+    }
+}
